@@ -29,6 +29,7 @@ func TestMain(m *testing.M) {
 			"columns referenced by a CHECK are not renamed (the meaning of the stored CHECK text afterwards is undocumented); FLOAT columns are not indexed (-0.0 key, C11/C15 known finding K6); JSON cells are compared by NULL-ness only",
 			"a rejected statement that the reference considers valid is counted (label rejected-unexpected-*) but is not a violation of this property; explicit values for AUTO_INCREMENT keys and multi-row UPDATEs whose outcome depends on the row order may be accepted or rejected",
 			"effects of accepted statements are compared with a reference interpreter (UPSERT replaces the row, ON CONFLICT DO UPDATE starts from the stored row); a difference is reported although the property text itself only speaks about constraints and aborted transactions",
+			"ADD COLUMN is only run as an autocommit statement: after a transaction that added a column and did not commit, the store's index mappers still hold that column; a later column with the same id and another type makes indexing fail for ever and every commit that waits for the index hangs (engine defect outside this property, reported)",
 			"not covered: ALTER COLUMN, DROP INDEX/TABLE, DEFAULT, FOREIGN KEY, partial indexes, savepoints (C13), type-mismatched literals",
 			"concurrent sessions run no DDL; while K12a is listed, tables with a unique index get no DELETE / no change of unique columns from concurrent sessions (counted)",
 		},
